@@ -121,8 +121,10 @@ def run_config(cx, cfg, prog):
     if cfg == 'default':
         inv = cx.rule('R5.1i', 'invariants used by D3 are established', floor=2, kind='dependency')
         for prop, rules_, name in (('C02', ('R2.3', 'R2.5', 'R2.6'), 'I1'), ('C04', ('R4.1', 'R4.2', 'R4.3', 'R4.4'), 'I2/I3'),
-                                   ('C16', ('R16.1', 'R16.3'), 'I2/I3')):
+                                   ('C16', ('R16.1', 'R16.3'), 'I2/I3'), ('C15', ('R15.1', 'R15.2'), 'I4'), ('C19', ('R19.1',), 'I4')):
             only = r'modes-not-cleaned|new_from_modes_and_cleanup\|fields|new_for_channel\|shape|new_on_user_join\|shape' if prop == 'C16' else None
+            if name == 'I4':
+                only = r'wallops-condition\|(stale|spurious-insert)|coupling\|wallops'     # I4: the WALLOPS audience set names registered users only
             import importlib
             sub = report.Check(prop, cx.check.tier)
             scx = Cx(sub, {'default': prog})
